@@ -349,6 +349,23 @@ pub fn eval(ctx: &Ctx, case: &Case) {
                             return;
                         }
                     }
+                    "C3-same-unpadded-hex-text" => {
+                        // bytes 0X,YZ rewritten XY,0Z: a different C3 that prints the same without zero padding
+                        let mut done = false;
+                        for i in 65..96 {
+                            let (a, b) = (ct[i], ct[i + 1]);
+                            if a != 0 && a < 0x10 && b >= 0x10 {
+                                ct[i] = (a << 4) | (b >> 4);
+                                ct[i + 1] = b & 0x0f;
+                                done = true;
+                                break;
+                            }
+                        }
+                        if !done {
+                            ctx.outcome("skipped/no-such-byte-pair");
+                            return;
+                        }
+                    }
                     f if f.starts_with("C3-bytes-changed/") => {
                         // several bytes of C3 changed so that the differences cancel under a sloppy accumulation: equal XOR
                         // differences (xor-fold), differences adding up to 0 mod 256 (sum-fold), neighbouring and distant positions
@@ -548,6 +565,7 @@ pub fn run(ctx: &Arc<Ctx>) {
         let r = hexbig(&rs[(bi + 3) % rs.len()].1);
         let total = 97 + l;
         let mut tampers: Vec<String> = vec!["none", "extended", "mlen-256", "mlen-300", "other-identity", "layout-C1C2C3", "layout-C3C1C2", "C3=SM3(K2||C2)", "C1-off-curve(y+1)/orig-body", "C1-off-curve(y+1)/invalid-curve-completed", "C1-off-curve(random)/invalid-curve-completed", "C1=(0,0)", "C1=(0,0)/body-for-w=1", "C1=(0,0)/body-for-w=0", "C1-x>=p", "C1-x+p-alias", "C1-y+p-alias", "C1-other-valid-point", "tag=02", "tag=00"].iter().map(|s| s.to_string()).collect();
+        tampers.push("C3-same-unpadded-hex-text".into());
         for spec in ["80@0,80@1", "80@0,80@31", "01@3,ff@17", "40@5,c0@6", "40@0,40@8,40@16,40@24", "55@10,55@20", "ff@all", "01@all"] {
             tampers.push(format!("C3-bytes-changed/{}", spec));
         }
